@@ -146,6 +146,8 @@ instance : Monad Rd where
     | .ok (a, s') => f a s'
     | .error e => .error e
 
+def Rd.run {α} (m : Rd α) (s : List TItem) : D (α × List TItem) := m s
+
 def Rd.fail {α} (e : DErr) : Rd α := fun _ => .error e
 def Rd.lift {α} (x : D α) : Rd α := fun s => match x with | .ok a => .ok (a, s) | .error e => .error e
 
@@ -176,7 +178,7 @@ def done (what : String) : Rd Unit := fun s => if s.isEmpty then .ok ((), []) el
 
 /-- a Struct subclass: type Structure (the tag was matched by the caller), body read by `body` -/
 def inStruct {α} (what : String) (body : Rd α) : TItem → D α
-  | .struct _ kids => (match body kids with | .ok (a, _) => .ok a | .error e => .error e)
+  | .struct _ kids => (match body.run kids with | .ok (a, _) => .ok a | .error e => .error e)
   | .prim _ _ => .error (.malformed what)
 
 /-- `[f(x) for x in l]` where `f` may raise -/
